@@ -21,19 +21,23 @@ SPEC = {
         "C07: correspondence cases are written as text (grammar in coq/C07/Run.v), packed 7 bytes per Uint63 literal and decoded in Gallina (p_case / D7, evaluated by vm_compute with Coq's primitive 63-bit integers); a text that does not decode counts as a disagreement",
         "C07: whole trees — coq/C07/Tree.v: the universe of tree values typed by the regenerated type definitions (has_ty), the generic interpreter remap_val of a table (impl dispatch, rows, class name handed down as CNone / CThisClass / CSelfName say, the joint positions Field/Method name+descriptor, EnclosingMethod, enum constants, dropped fields) and the specification spec_remap_val (from Spec.v and the type definitions only). The meaning of the table's action vocabulary (apply_leaf / apply_pos / pass_ctx) is hand-written and shared by interpreter and specification where both name the same remapper method; the interpreter is tied to remap.rs by the CTree correspondence cases (whole trees in, whole trees out)",
         "C07: CTree cases: the harness serialises the `{:?}` rendering of duke's tree (harness/src/classfile/dbg.rs parser; the one custom rendering, Annotation, written back as its struct) without any knowledge of the class tree; the schema-directed reading into tree values (of_dbg in coq/C07/Run.v, flag words -> is_<word> fields, unit variants, tuple fields 0,1,..) is part of the comparison and is trusted as far as the comparison goes; f32/f64 leaves are compared through their Debug text (NaN payloads are not distinguished)",
+        "C07: coq/C07/Laws.v, Laws2.v, Occ.v prove the identity law, the composition law (remap g after remap f = remap (comp f g)) and locality / member_refs_use_owner for every occurrence about the SPECIFICATION spec_val and carry them to remap_val gen_table through Th 6 (C07_remap_val_spec_full): they are theorems about the interpreter of the regenerated table, not about the Rust traversal; the implementation side of the two laws is the harness' two-step oracle (remap(remap(jar,f),id) and remap(remap(jar,f),g) against remap(jar, Compose(f,g)), compared byte for byte); Laws2.v uses C18's model and theorems of the field-descriptor parser (parse_print_field, print_parse_field, obj_class_name_spec) for the enum-constant position",
         "C07: the harness oracle spec_remap (harness/src/bin/c07/spec.rs) is written from the same specification of reference positions, not from remap.rs, and uses the remapper's own answers; the zip container, duke's class writer (C02) and, for reading the output, the independent parser harness/src/classfile/raw.rs are trusted as far as the comparison goes",
     ],
     "assumptions": [
-        "entry names: every class entry is named <internal class name>.class (multi-release entries META-INF/versions/N/… are renamed by their path, not by the class inside — outside the hypothesis)",
-        "the remapper does not send two entry names of the jar to the same name (IndexMap::insert would silently replace the first; modelled by im_insert and exercised by a separate stream)",
+        "entry names: every class entry is named <internal class name>.class. An entry that is not (multi-release layout META-INF/versions/N/…, WEB-INF/classes/…) is renamed by its whole path, not by the class inside: modelled (entry_name), compared (multi-release stream, also with mapping rows for the paths), proved (C07_entry_name_path) and the clause 'stored under the name of its remapped class' REFUTED for it (C07_multi_release_entry_not_moved; the unrestricted statement is the unproved Definition stored_under_remapped_class_full) — known finding F07m: the harness classifies exactly that witness class (entry = <non-empty prefix>/<binary name of the class inside>.class, class renamed, path kept) and judges everything else about the entry",
+        "the remapper does not send two entry names of the jar to the same name (IndexMap::insert would silently replace the first; modelled by im_insert and exercised by a separate stream); C07_remap_entries_injective derives this from distinct input names and a remapper that is injective on the jar's class entries",
+        "composition law: the FIRST remapper's answers can be read again (wf_first: class answers not empty, without `;`, not starting with `[`, valid exactly when the name asked about is; field answers are field names with the class-by-class rewritten descriptor) — C07_valid_answers_wf derives it from valid answers, C07_composition_example shows it cannot be dropped; the harness' first remappers are quill's over generated mappings, which satisfy it",
+        "entry time stamps: the DOS last-modified time of every entry is preserved (compared); the extended-timestamp extra field is read by the code but cannot be written with the zip crate in use (not compared)",
         "remapper answers are functions of their arguments (the harness records them as a finite table)",
-        "the super-type graph handed to quill's remapper is acyclic (its search recurses without bound on a cycle: C06's hypothesis acyclic_rank; the harness drops classes that would close a cycle)",
+        "the super-type graph handed to quill's remapper is acyclic (C06's hypothesis acyclic_rank; on a cycle the search answers an error since 6383b89 — it recursed without bound before; the harness drops classes that would close a cycle, so that the remapper has answers)",
         "the remapper does not rename java/lang/String (JVMS 4.7.2 ties string ConstantValues to a field of exactly that type; a jar remapped that way is rejected by the independent parser)",
         "access flags are compared on the bits the JVMS defines (duke's flag structs cannot hold the others)",
         "the name of a record component is a valid unqualified name (JVMS 4.7.30): remap asks about it as the field of that name and returns an error otherwise (modelled: DRecord; has_ty does not demand it, the interpreter and the specification both answer Err)",
     ],
     "stated_not_proved": [
         "remap_val = the Rust traversal of remap.rs is not a theorem (there is no Rust semantics here): it is the CTree correspondence (whole class trees of corpus and generated classes, input and output of remap_class, compared node by node with remap_val gen_table, and with spec_remap_val) plus the translator's fail-closed recognition of every impl body",
+        "each class entry is stored under the name of its remapped class, for entries NOT named by their class (stored_under_remapped_class_full): false of the code (C07_multi_release_entry_not_moved)",
         "the step from the tree returned by remap_class to the bytes in the output jar (duke's writer, C02; zip container) is covered by the spec_remap oracle on the re-opened jar, not by a theorem (instruction lists are compared instruction by instruction with targets as instruction indices; every run includes jars whose classes have method bodies over 32 KiB with forward and backward jumps beyond the 16-bit range — javac's BigMethod, classfile::gen::boundary, harness/src/bin/c07/far.rs — every class renamed and so re-written by duke's multi-attempt layout; the harness fails the run if that stream is empty or was not compared); F01p (parameter annotations not in duke's tree) and the empty Record attribute (duke's tree cannot represent it: C01's F13r; reported under F18c) live there",
     ],
 }
